@@ -34,7 +34,7 @@ ASSUMPTIONS = [
     "frames are compared by their reference reading (don't-care bits may differ between the reference encoder and pyairtouch's)",
     "only values the documents define are generated (no not-available codes in non-optional fields)",
 ]
-PROBES = ["c03.request_kind", "c03.control_kind", "c03.status_kind", "c03.multibyte_utf8", "c03.zero_temperature", "c03.many_records", "c03.segmented_echo"]
+PROBES = ["c03.zero_records", "c03.request_kind", "c03.control_kind", "c03.status_kind", "c03.multibyte_utf8", "c03.zero_temperature", "c03.many_records", "c03.segmented_echo"]
 TRUSTED_BASE = ["ref/wire4.py, ref/wire5.py, ref/encode.py"]
 PER_RUN = 24
 
@@ -74,6 +74,8 @@ def generate(rng, index: int, tier: str) -> dict:
             f, _k = framegen.frame(rng, gen)
             if rng.random() < 0.15:
                 f = _zero_temp_frame(rng, gen)
+            elif gen == 5 and rng.random() < 0.12:
+                f = _zero_record_frame(rng)
         else:
             f = _client_kind_frame(rng, gen)
         frames.append(f)
@@ -85,6 +87,12 @@ def generate(rng, index: int, tier: str) -> dict:
     knobs = {"latency": rng.choice([0.0, G.TICK]), "first_packet_id": rng.randrange(256),
              "seg": rng.choice([{"mode": "whole"}, {"mode": "random", "seed": rng.getrandbits(16), "max": 4}, {"mode": "bytes"}])}
     return {"gen": gen, "mode": "socket", "knobs": knobs, "timeline": tl, "end": t + 1.0}
+
+
+def _zero_record_frame(rng) -> bytes:
+    """AT5 status / control with repeat count 0 (the record length is still announced): not a request."""
+    sub, rl = rng.choice([(wire5.S_ZONE_STATUS, 8), (wire5.S_AC_STATUS, 10), (wire5.S_TIMER_STATUS, 9), (wire5.S_ZONE_CTRL, 4), (wire5.S_AC_CTRL, 4)])
+    return wire5.f_cs(rng.randrange(256), sub, [], rlen=rl)
 
 
 def _zero_temp_frame(rng, gen: int) -> bytes:
@@ -194,6 +202,8 @@ def execute(sc: dict) -> dict:
             probes["c03.zero_temperature"] = 1
         if any(isinstance(v, list) and len(v) >= 8 for v in ref.values()):
             probes["c03.many_records"] = 1
+        if gen == 5 and any(isinstance(v, list) and not v for v in ref.values()):
+            probes["c03.zero_records"] = 1
         # second delivery equals the first
         if ph["second"] is None:
             V.append(viol("C03.echo_not_received", {"kind": k, "resent": fr2["raw"].hex(), "links": len(w.net.links)}, kind=k, gen=gen))
